@@ -52,7 +52,7 @@ func (h H) asyncSeq() []eventbus.SubscribeOption {
 
 // OverlapCase: concurrent publishers against Sequential handlers.
 type OverlapCase struct {
-	ViaAny bool `json:"via_any,omitempty"` // events are published through the static type any
+	ViaAny     bool  `json:"via_any,omitempty"` // events are published through the static type any
 	Handlers   []H   `json:"handlers"`
 	Publishers []int `json:"publishers"` // events per publisher
 	Procs      int   `json:"procs"`
@@ -293,7 +293,7 @@ func runOverlap(c *OverlapCase, k *counters) *vkit.Outcome {
 
 // OrderCase: one goroutine publishes 0..N-1 to Async+Sequential handlers.
 type OrderCase struct {
-	ViaAny bool `json:"via_any,omitempty"` // events are published through the static type any
+	ViaAny   bool  `json:"via_any,omitempty"` // events are published through the static type any
 	N        int   `json:"n"`
 	Handlers []H   `json:"handlers"` // Async is forced
 	Work     []int `json:"work"`     // Gosched calls per event inside the handler (cyclic)
